@@ -114,6 +114,18 @@ def gen_facts():
             S = "cnl::scaled_integer<%s, cnl::power<%d>>" % (T.name, e)
             F.append(factmod.Fact("make_elastic_scaled_integer/from-scaled/%s@%d/exponent" % (T.short, e), "cnl::_impl::tag_of_t<decltype(cnl::make_elastic_scaled_integer(std::declval<%s>()))>::exponent" % S, e))
             F.append(factmod.Fact("make_elastic_scaled_integer/from-scaled/%s@%d/digits" % (T.short, e), "cnl::digits_v<decltype(cnl::make_elastic_scaled_integer(std::declval<%s>()))>" % S, T.digits))
+    # constant<V>: digits are those the value uses, whatever the TYPE of the template argument (seeded change M-C15-4 took
+    # max(V, -V), which wraps for unsigned arguments)
+    for lit_, val in (("5U", 5), ("40U", 40), ("1000UL", 1000), ("1ULL", 1), ("255U", 255), ("256U", 256), ("5", 5), ("-5", -5), ("-32", -32), ("1000L", 1000), ("2147483647", 2147483647),
+                      ("4294967295U", 4294967295), ("9223372036854775807LL", 2 ** 63 - 1), ("std::size_t{6}", 6)):
+        want = abs(val).bit_length()
+        F.append(factmod.Fact("constant/%s/digits" % lit_, "cnl::digits_v<cnl::constant<%s>>" % lit_, want))
+        F.append(factmod.Fact("constant/%s/make_elastic_integer/digits" % lit_, "cnl::digits_v<decltype(cnl::make_elastic_integer(cnl::constant<%s>{}))>" % lit_, max(want, 1) if val else None, may_reject=True)
+                 if val else factmod.Fact("constant/%s/noop" % lit_, "1", 1))
+    for lit_, val in (("40U", 40), ("40", 40), ("48UL", 48), ("1024ULL", 1024), ("-96", -96), ("7U", 7)):
+        tz = (abs(val) & -abs(val)).bit_length() - 1
+        F.append(factmod.Fact("constant/%s/make_elastic_scaled_integer/exponent" % lit_, "cnl::_impl::tag_of_t<decltype(cnl::make_elastic_scaled_integer(cnl::constant<%s>{}))>::exponent" % lit_, tz, may_reject=True))
+        F.append(factmod.Fact("constant/%s/make_elastic_scaled_integer/digits" % lit_, "cnl::digits_v<decltype(cnl::make_elastic_scaled_integer(cnl::constant<%s>{}))>" % lit_, (abs(val) >> tz).bit_length(), may_reject=True))
     return F
 
 
